@@ -1,5 +1,6 @@
 mod codec;
 mod decoder;
+mod gap;
 mod phyrx;
 mod util;
 
@@ -21,6 +22,7 @@ fn engine(name: &str) -> Option<(fn(&mut Vec<String>, u64, bool), Box<dyn Execut
     match name {
         "codec" => Some((codec::gen, Box::new(Stateless(codec::exec)))),
         "decoder" => Some((decoder::gen, Box::new(Stateless(decoder::exec)))),
+        "gap" => Some((gap::gen, Box::new(Stateless(gap::exec)))),
         "phyrx" => Some((phyrx::gen, Box::new(phyrx::Exec::new()))),
         _ => None,
     }
